@@ -329,6 +329,38 @@ def rule_expert_table(mod, rep, pid, partition_filter=None, classes=None, rule="
                          extra={"partition": kw})
 
 
+def rule_expert_argcodes(mod, rep):
+    """C15: which argument codes can be stored in which mode partition (the prologue is evaluated by the same partitioned propagation as the dispatch table)"""
+    rep.rule("X-ARGS", "p?gssvx: for every mode partition, the set of negative codes that the prologue can store into *info equals the documented one: the codes of nprocs, B and X "
+             "in every partition (their validity is not fixed by the partition), the code of R exactly when fact = FACTORED and equed is ROW or BOTH, the code of C exactly when "
+             "fact = FACTORED and equed is COL or BOTH - a test that another mode flag makes unreachable lets an invalid scale vector through", floor=40)
+    rep.exhaustive = True
+    for prec, f in fam(mod, "p?gssvx"):
+        rep.scope([f.name])
+        f, rows = x_table(mod, prec)
+        pos = lambda n: f.cpos[f.pindex(n)]
+        seen = set()
+        for part, it, got in rows:
+            kw = part.kw
+            k = (kw["Stype"], kw["trans"], kw["fact"], kw["equed_in"], kw["lwork"])
+            if k in seen:
+                continue
+            seen.add(k)
+            g = set(a[1] for a in got if a[0] == "info:=" and isinstance(a[1], int) and a[1] < 0)
+            x = {-pos("nprocs"), -pos("B"), -pos("X")}
+            if kw["fact"] == "FACTORED" and kw["equed_in"] in ("ROW", "BOTH"):
+                x.add(-pos("R"))
+            if kw["fact"] == "FACTORED" and kw["equed_in"] in ("COL", "BOTH"):
+                x.add(-pos("C"))
+            key = "%s#%s/%s/%s/eqin=%s/lwork=%d" % (f.name, kw["Stype"][4:], kw["trans"], kw["fact"], kw["equed_in"], kw["lwork"])
+            if g == x:
+                rep.ok("X-ARGS", key, "storable argument codes %s agree with the contract" % sorted(g), f.file, f.name)
+            else:
+                sites = [i.loc for i, a in it.events if a[0] == "info:=" and len(a) > 1 and a[1] in (g - x)]
+                rep.fail("X-ARGS", key, "argument codes that can be reported in this partition: %s; documented: %s (missing %s, unexpected %s)" % (
+                    sorted(g), sorted(x), sorted(x - g), sorted(g - x)), sites[0] if sites else f.file, f.name, extra={"partition": kw})
+
+
 # ---------------------------------------------------------------- simple driver p?gssv (B.2)
 
 class SPart(Partition):
